@@ -493,6 +493,45 @@ func concRun(repo string, seed int64, goroutines, rounds int, out string) error 
 			}
 		}
 	}
+	// documents in older spellings that the regime rewrites while calculating (PT: exemption reasons once written as
+	// rate keys and migrated through a table), with and without a foreign country on the tax combination
+	legacy := map[int]bool{}
+	for i := 0; i < nbase; i++ {
+		if !strings.Contains(names[i], "/pt/") {
+			continue
+		}
+		var m map[string]any
+		if json.Unmarshal(docs[i], &m) != nil {
+			continue
+		}
+		doc, ok := m["doc"].(map[string]any)
+		lines, _ := doc["lines"].([]any)
+		if !ok || !strings.HasSuffix(fmt.Sprint(doc["$schema"]), "/bill/invoice") || len(lines) == 0 {
+			continue
+		}
+		orig, _ := json.Marshal(lines)
+		for _, key := range []string{"exempt+outlay", "exempt+exports", "exempt+small-retail-scheme", "exempt+reverse-charge+b2b", "exempt+non-taxable"} {
+			for _, country := range []string{"", "ES"} {
+				var ls []any
+				json.Unmarshal(orig, &ls)
+				for _, l := range ls {
+					combo := map[string]any{"cat": "VAT", "rate": key}
+					if country != "" {
+						combo["country"] = country
+					}
+					l.(map[string]any)["taxes"] = []any{combo}
+				}
+				doc["lines"] = ls
+				delete(doc, "totals")
+				b, _ := json.Marshal(m)
+				legacy[len(docs)] = true
+				docs = append(docs, b)
+				names = append(names, names[i]+"+legacy:"+key+":"+country)
+			}
+		}
+		json.Unmarshal(orig, &lines)
+		doc["lines"] = lines
+	}
 	before := registryFingerprint()
 	w.Emit(concEvent{K: "registry", Op: "before", Same: true, Got: before})
 	// the concurrent phase comes first, in a cold process: lazily initialised shared state (caches,
@@ -520,6 +559,9 @@ func concRun(repo string, seed int64, goroutines, rounds int, out string) error 
 				<-start
 				env := new(gobl.Envelope)
 				if json.Unmarshal(docs[i], env) == nil {
+					if legacy[i] {
+						_ = env.Calculate() // the rewriting happens here
+					}
 					_ = env.Validate()
 				}
 			}()
